@@ -23,6 +23,31 @@ type TFWrite struct {
 	// Wrap 1/2: the value is a new list / object holding that container
 	Ref  string `json:"ref,omitempty"`
 	Wrap int    `json:"wrap,omitempty"`
+	// NativeDup (with Native): the last child of the value is a copy of its first container child, and in
+	// the Go value both places hold ONE map / slice instance (e.g. a shared 'defaults' map); the tree must
+	// still get two independent containers
+	NativeDup bool `json:"nativedup,omitempty"`
+}
+
+// aliasNativeDup makes the last entry of a native map / slice the same Go instance as its first container entry.
+func aliasNativeDup(x any, val V) any {
+	switch t := x.(type) {
+	case []any:
+		for i, e := range val.L[:len(val.L)-1] {
+			if (e.K == KList && len(e.L) > 0) || (e.K == KObject && len(e.O) > 0) {
+				t[len(t)-1] = t[i]
+				break
+			}
+		}
+	case map[string]any:
+		for _, p := range val.O[:len(val.O)-1] {
+			if (p.V.K == KList && len(p.V.L) > 0) || (p.V.K == KObject && len(p.V.O) > 0) {
+				t[val.O[len(val.O)-1].K] = t[p.K]
+				break
+			}
+		}
+	}
+	return x
 }
 
 // tReaches reports whether b is a or reachable from a.
@@ -589,6 +614,29 @@ func GenC11(t *rapid.T) *C11Case {
 			case 2:
 				w.Val = GenValue(t, cfg, 2)
 				w.Native = true
+				if drawBool(t, "nativedup") {
+					// append a copy of the first non-empty container child (same Go instance in the native value)
+					switch w.Val.K {
+					case KList:
+						for _, e := range w.Val.L {
+							if (e.K == KList && len(e.L) > 0) || (e.K == KObject && len(e.O) > 0) {
+								w.Val.L = append(append([]V{}, w.Val.L...), e.Clone())
+								w.NativeDup = true
+								break
+							}
+						}
+					case KObject:
+						if _, taken := w.Val.Field("dup~"); !taken {
+							for _, p := range w.Val.O {
+								if (p.V.K == KList && len(p.V.L) > 0) || (p.V.K == KObject && len(p.V.O) > 0) {
+									w.Val.O = append(append([]Pair{}, w.Val.O...), Pair{"dup~", p.V.Clone()})
+									w.NativeDup = true
+									break
+								}
+							}
+						}
+					}
+				}
 			}
 			refSet(model, segs, tFromV(w.Val), nil)
 		}
@@ -749,6 +797,10 @@ func CheckC11(c *C11Case, st *Stats) error {
 			st.Count(fmt.Sprintf("value.existing_container.wrap%d", w.Wrap))
 		} else if w.Native {
 			arg = Native(w.Val)
+			if w.NativeDup {
+				arg = aliasNativeDup(arg, w.Val)
+				st.Count("value.native_with_one_instance_twice")
+			}
 			st.Count("value.native")
 		} else {
 			arg = Build(w.Val)
